@@ -51,13 +51,21 @@ func (r *scriptedReader) Read(p []byte) (int, error) {
 	if r.fault >= 0 && r.fault < limit {
 		limit = r.fault
 	}
-	if r.pos >= limit {
-		if r.fault >= 0 || r.pos >= len(r.stream) {
-			if r.fault < 0 {
-				return 0, io.EOF
-			}
-			return 0, ferr
+	if r.fault < 0 && r.pos >= len(r.stream) {
+		// a source that never fails keeps delivering (deterministic filler), so read-ahead is harmless
+		n := r.chunks[r.ci%len(r.chunks)]
+		r.ci++
+		if n > len(p) {
+			n = len(p)
 		}
+		for i := 0; i < n; i++ {
+			p[i] = 0x5a
+		}
+		r.pos += n
+		return n, nil
+	}
+	if r.pos >= limit {
+		return 0, ferr
 	}
 	n := r.chunks[r.ci%len(r.chunks)]
 	r.ci++
@@ -225,7 +233,13 @@ var c18 = gen.Register(&gen.Check[caseC18]{
 			return nil
 		}
 		if pnc != nil {
-			return gen.Fail("Random/panic", "unexpected panic %v (fault at %d, first usable block ends at %d)", pnc, c.Fault, goodEnd)
+			if c.Fault >= 0 {
+				// the source did fail, only later than the block that had to be used: an implementation that reads
+				// ahead may legitimately panic here; what it must never do is return a wrong or weak value
+				o.Class("fault-after:panicked")
+				return nil
+			}
+			return gen.Fail("Random/panic", "unexpected panic %v although the source never fails (first usable block ends at %d)", pnc, goodEnd)
 		}
 		if ret != s {
 			return gen.Fail("Random/return", "did not return the receiver")
